@@ -215,20 +215,42 @@ REAL_CANDIDATES = [
 
 
 _SHARED_CODES: dict = {}
+_SHARED_EMS: dict = {}
+
+
+def real_objects(i, share):
+    """(code, noise model) of candidate i; share=True: one code object per code configuration and one
+    noise-model object per candidate in this process (as a user script holding on to its objects does)."""
+    from panqec.error_models import PauliErrorModel
+    cfg, (rx, ry, rz, dn, dk), dname = REAL_CANDIDATES[i]
+    mk = lambda: PauliErrorModel(rx, ry, rz, deformation_name=dn, deformation_kwargs=dk)
+    if not share:
+        return common.make_code(cfg), mk()
+    if cfg not in _SHARED_CODES:
+        _SHARED_CODES[cfg] = common.make_code(cfg)
+    key = (rx, ry, rz, dn, str(dk))
+    if key not in _SHARED_EMS:
+        _SHARED_EMS[key] = mk()
+    return _SHARED_CODES[cfg], _SHARED_EMS[key]
+
+
+def real_query(i, rate=0.3):
+    """A read-only question to the shared noise model of candidate i between two runs: the probability of a
+    weight-2 error (X on qubit 0, Y on qubit 1), plain and log form."""
+    code, em = real_objects(i, True)
+    e = np.zeros(2 * code.n, dtype=np.uint8)
+    e[0] = e[1] = e[code.n + 1] = 1
+    with np.errstate(divide='ignore'):
+        em.error_probability(e, code, rate)
+        em.error_probability(e, code, rate, log_output=True)
 
 
 def real_run(i, n_trials=12, rate=0.3, seed=7, share=False):
-    """One real DirectSimulation (real classes, real engines) for candidate i; returns its results as JSON.
-    share=True: simulations on the same code configuration use ONE code object (as a user script does)."""
+    """One real DirectSimulation (real classes, real engines) for candidate i; returns its results as JSON."""
     import panqec.decoders as pd_
-    from panqec.error_models import PauliErrorModel
     from panqec.simulation import DirectSimulation
-    cfg, (rx, ry, rz, dn, dk), dname = REAL_CANDIDATES[i]
-    if share:
-        code = _SHARED_CODES.setdefault(cfg, common.make_code(cfg))
-    else:
-        code = common.make_code(cfg)
-    em = PauliErrorModel(rx, ry, rz, deformation_name=dn, deformation_kwargs=dk)
+    dname = REAL_CANDIDATES[i][2]
+    code, em = real_objects(i, share)
     dec = getattr(pd_, dname)(code, em, rate)
     sim = DirectSimulation(code, em, dec, rate, rng=np.random.default_rng(seed), verbose=False)
     sim.run(n_trials)
@@ -278,14 +300,17 @@ def w_real(cfg, tier):
     eng = Engine(name=cfg, max_paths=5000)
     with eng:
         a, b = eng.integer('first', 0, m - 1), eng.integer('second', 0, m - 1)
+        qv = eng.integer('query_between', 0, 1)
 
         def fn():
-            i, j = int(a), int(b)
+            i, j, q = int(a), int(b), int(qv)
 
             def history():
                 real_run(i, share=True)
+                if q:
+                    real_query(j)
                 return real_run(j, share=True)
-            return i, j, hz.in_forked_child(history)
+            return i, j, q, hz.in_forked_child(history)
         ps = eng.explore(fn)
     col.absorb(eng)
     bad, w = [], [None]
@@ -294,13 +319,13 @@ def w_real(cfg, tier):
             bad.append(z3_and(p.pc))
             w[0] = w[0] or dict(real=True, exception=f'{type(p.exc).__name__}: {p.exc}')
             continue
-        i, j, blob = p.value
+        i, j, q, blob = p.value
         diff = blob != alone[j]
         bad.append(z3_and(p.pc + [z3.BoolVal(diff)]))
         if diff and (w[0] is None or 'first' not in w[0]):
-            w[0] = dict(real=True, first=i, second=j)
+            w[0] = dict(real=True, first=i, second=j, query=q)
     col.prove('C11/real/results-do-not-depend-on-what-ran-before-in-the-process', eng.base, z3_or(bad), lambda mo: w[0],
-              f'{len(ps)} realised ordered pairs of real simulations (12 trials each, seed 7), one forked process per pair; '
+              f'{len(ps)} realised histories: ordered pairs of real simulations (12 trials each, seed 7, shared code and noise-model objects), optionally a read-only error_probability query in between; one forked process each; '
               'compared with the second simulation alone in a fresh process, bit for bit')
     return col.result()
 
@@ -323,6 +348,8 @@ def replay(path):
             alone = hz.in_forked_child(lambda: real_run(j))
             if w.get('first') is not None:
                 real_run(w['first'], share=True)
+            if w.get('query'):
+                real_query(j)
             got = real_run(j, share=True)
             bad = got != alone or bool(trial_consistency(j, got)) if 'relations' in w or w.get('first') is None \
                 else got != alone
